@@ -16,7 +16,10 @@ def _work(args):
     case, obs_by_d = args
     out, n = [], 0
     env, srcs = jrun.make_env(case)
-    t = env.get_template(case["main"])
+    if case.get("tglobals"):
+        t = env.get_template(case["main"], globals={k: J.to_py(v, case["objs"], [], {}) for k, v in case["tglobals"].items()})
+    else:
+        t = env.get_template(case["main"])
     for di, obs in obs_by_d.items():
         if obs["err"]:
             continue
